@@ -14,7 +14,9 @@ RULE = (
     "inferral, factories with ready and foreign-parent rules, non-atom verification, iterative, one-way unary rules, and "
     "the example's expansion strategy declared one-way x 4 rule databases x expand_verified/smallest x random "
     "proof-tree seeds) and random table universes (integer classes, table-driven strategies, x 4 rule databases x "
-    "expand_verified; `smallest` is never set there). Per search that "
+    "expand_verified; `smallest` is never set there; 80% of them are made to honour pe_contract with c04.make_strong - "
+    "the share meant to instantiate C02_search_find_rule_total, whose table hypotheses the extracted decider evaluates "
+    "on every table-universe case - the rest are left as generated). Per search that "
     "announces a specification: (1) for the pruning databases the real SpecificationRuleExtractor runs with recorded "
     "set order and find_path answers and its dictionary is compared with the model; (2) its rules() - every "
     "_find_rule call, on the class database as it is then, over the real stores (dicts of RuleDB / RecomputingDict) - "
@@ -67,8 +69,15 @@ TRUSTED = [
     "on word universes only, where every equivalence rule has shift 0",
 ]
 ASSUMPTIONS = [
-    "productivity of specifications found by the pruning databases is decided per returned specification "
-    "(C02_productive_decided), not proved for all universes; C02_grouping_preserves_productivity / "
+    "productivity of specifications found by the pruning databases is decided per returned specification, not proved "
+    "for all universes. The deciding procedure is the PROVED one: run_spec computes with the table-method model "
+    "(Forest/Model.v run with the fuel proved sufficient, then is_pumping; C02_object_root_pumps_decided: verdict = true "
+    "<-> pumps) whether the root and every class with a key pump w.r.t. R1 of the finished object and w.r.t. R0 of the "
+    "ungrouped rules (fields 9-11), and where a productive rule set is owed (word universes, forest databases) the "
+    "comparison REQUIRES these bits to be 1 (R0: under wf and one-shift-per-child); the Python naive_lfp stays as the "
+    "independent oracle on the same key lists (and is what the bits are compared with where nothing is owed); "
+    "C02_productive_decided remains the meaning of the run_pumps bits on `speckeys`, which are compared with the real "
+    "TableMethod only; C02_grouping_preserves_productivity / "
     "C02_object_keys_pump_iff carry the verdict between the rules handed out and the grouped specification object, a "
     "path rule being counted with the SUM of its members' shifts; that this sum is what EquivalencePathRule.shifts() "
     "declares (it asks the first member's strategy for (first class, last children)) is not a theorem: it is "
@@ -85,17 +94,42 @@ ASSUMPTIONS = [
     "stored as equivalences can be equivalences, two-way entries are reversible, and - for the reversed / equivalence "
     "forms - that the class the entry ends in is not empty; C02_search_find_rule_total discharges the first three for "
     "runs of the searcher model (C04 composition) from hypotheses on the table (contracts of Searcher/Contracts.v, "
-    "sym_unary, twoway_faithful, cap/reversible of two-way entries); the harness does not check these table hypotheses "
-    "per C02 case (C04's extra_checks count how many table universes satisfy them); RuleDBForgetStrategy additionally needs a pack strategy that "
+    "sym_unary, twoway_faithful, cap/reversible of two-way entries). These table hypotheses are DECIDED on every "
+    "table-universe case whose rules() is compared: the extracted run_c02 evaluates find_rule_hyps_b (Searcher/Deciders.v, "
+    "sound by find_rule_hyps_sound; C02_search_find_rule_total_decided restates the theorem over it) on the table of the "
+    "case, the plugin computes the same bits with c04.py's predicates and the two are part of the compared output. The "
+    "theorem covers a case only where the verdict is true: 93-96% of the table-universe RuleDB searches compared (quick "
+    "tier, seeds 0-2; 80% of the table universes are made contract-honouring by the generator with c04.make_strong, of "
+    "the untouched ones about a quarter break pe_contract and are NOT covered - they exercise robustness only; "
+    "extra_checks fails below 85%); NOT covered at all: searches with RuleDBForgetStrategy (the theorem is about the "
+    "dict stores) and word universes (hypotheses not evaluated: no check runs the searcher model on a tabulated word "
+    "search, so the theorem reaches a word search only modulo the trusted Tabulator anyway); packets_in is not "
+    "evaluated here (C02 records no packets; a theorem of the queue model, evaluated on real packets by C04/C14/C17); "
+    "sym_contract, sym_unary, items_plain, cap, reversible hold by construction of harness/universes/table.py and a "
+    "false verdict on one of them is an oracle failure; RuleDBForgetStrategy additionally needs a pack strategy that "
     "reproduces the rule on a class of the key (C14; refuted otherwise: C02_find_rule_forget_foreign_parent_refuted)",
     "C02_enforce_labels_partial: termination of _enforce_labels within the model's fuel is not proved",
 ]
+
+
+HONOUR_FRACTION = 0.8
+# minimum share of the table-universe RuleDB searches whose rules() is compared on which the extracted decider must
+# say that the hypotheses of C02_search_find_rule_total hold (measured 93-96% on seeds 0-2; see extra_checks)
+MIN_COVERED = 0.85
 
 
 def gen(rng, tier):
     n_std = len(runs.W.START_SPECS) - len(words_c02.STARTS)
     while True:
         case = runs.gen_case(rng, table_fraction=0.55)
+        if case["kind"] == "table" and rng.random() < HONOUR_FRACTION:
+            # the share of table universes meant to instantiate C02_search_find_rule_total: entries breaking
+            # pe_contract (a possibly_empty=False strategy with an empty child on an empty class, about a quarter of
+            # harness/universes/table.py's universes) are removed (c04.make_strong); the rest stay as they are and
+            # exercise robustness.  Whether the hypotheses hold is DECIDED per case by the extracted decider (out[6]).
+            from harness.props import c04
+
+            c04.make_strong(case["universe"])
         if case["kind"] == "word":
             # the packs and start classes registered by words_c02 are drawn by the dedicated branch below only
             while case["pack"] in words_c02.PACK_NAMES:
@@ -310,7 +344,7 @@ def _rule_entry(lab, tags, cls_, rule):
     return [lab[cls_], 0, t, kids, []]
 
 
-def _spec_observation(root, rules, lab=None):
+def _spec_observation(root, rules, lab=None, owed=False):
     """(model input, what the real constructor did) for CombinatorialSpecification(root, rules);
     lab: class -> number, shared between the observations of one case (extended here)"""
     from comb_spec_searcher.strategies.rule import EquivalencePathRule
@@ -378,11 +412,11 @@ def _spec_observation(root, rules, lab=None):
         spec = cls(root, rules)
     except _Unfinished:
         info["ctor"] = "unfinished"
-        return spec_in, [9, [], [], [], wf, sok, [], [], 1], info
+        return spec_in, [9, [], [], [], wf, sok, [], [], 1, [], [], []], info
     except (AssertionError, KeyError, IndexError) as e:
         code = _ctor_error_code(e)
         info["ctor"] = "%s(%d)" % (type(e).__name__, code)
-        return spec_in, [_coarse(code), [], [], [], wf, sok, [], [], 1], info
+        return spec_in, [_coarse(code), [], [], [], wf, sok, [], [], 1, [], [], []], info
     for c in spec.rules_dict:
         lab.setdefault(c, len(lab))
     entries = sorted(_rule_entry(lab, tags, c, r) for c, r in spec.rules_dict.items())
@@ -432,7 +466,23 @@ def _spec_observation(root, rules, lab=None):
     info["nlazy"] = sum(1 for e in entries if e[1] == 2)
     info["longest_path"] = max([len(e[4]) for e in entries] or [0])
     info["root_ok"] = spec.root == root and root in spec.rules_dict
-    return spec_in, [0, entries, labels, ung, wf, sok, sorted(r1_code), sorted(r0), 1], info
+    # ---- fields 9..11: the productivity verdicts.  The MODEL computes them with the proved table-method model
+    #      (Spec/GroupingPumps.v pumpsb; C02_object_root_pumps_decided) on ITS R1 / R0 (fields 6, 7, compared above).
+    #      Where a productive rule set is owed (`owed`: word universes and forest databases, not the run with a rule
+    #      left out) this side states the REQUIREMENT - every bit 1 - so that a 0 of the proved procedure fails the
+    #      check; elsewhere (and always in info["lfp_*"], for the oracle) the independent Python Kleene iteration.
+    #      The R0 bits are required only under the premises of C02_grouping_preserves_productivity (wf, shifts_ok).
+    rl = lab[root]
+    p1, p0 = _pumping(sorted(r1_code)), _pumping(sorted(r0))
+    lfp1 = sorted([k[0], int(k[0] in p1)] for k in r1_code)
+    lfp0 = sorted([k[0], int(k[0] in p0)] for k in r0)
+    lfp_root = [int(rl in p1), int(rl in p0)]
+    info["lfp_R1"], info["lfp_R0"], info["lfp_root"], info["owed"] = lfp1, lfp0, lfp_root, bool(owed)
+    owed0 = owed and wf and sok
+    v_root = [1 if owed else lfp_root[0], 1 if owed0 else lfp_root[1]]
+    v1 = [[c, 1] for c, _ in lfp1] if owed else lfp1
+    v0 = [[c, 1] for c, _ in lfp0] if owed0 else lfp0
+    return spec_in, [0, entries, labels, ung, wf, sok, sorted(r1_code), sorted(r0), 1, v_root, v1, v0], info
 
 
 def _ungrouped(enc_rules):
@@ -692,6 +742,12 @@ def _findrule_observation(case, res):
     entries = [[p, list(cs)] for p, cs in ex.rules_dict.items()]
     fr_in = [[(2 if _forget_scans_all() else 1) if forget else 0, _convert_flag()], empty, strats, order, classes, cache,
              rs, es, entries, nocap]
+    if case["kind"] == "table":
+        # 11th element: what the deciders of Searcher/Deciders.v need beyond the table rules() is modelled on
+        # (verification strategies, symmetries, the strategies the queue hands out; C02 records no packets)
+        from harness.props import hyps
+
+        fr_in.append(hyps.extra_field(case["universe"]))
     info = {"err": err, "nforms": len(forms), "kinds": sorted({f[0] for f in forms}),
             "new_labels": nafter - n0}
     return fr_in, [err, forms, nafter], info
@@ -704,7 +760,7 @@ def impl(case):
            "is_table": case["kind"] == "table",
            "extraction_error": res.get("error")}
     ext_out = [9, [], 0, 0]
-    spec_out = rev_out = cut_out = [-1, [], [], [], 0, 0, [], [], 1]
+    spec_out = rev_out = cut_out = [-1, [], [], [], 0, 0, [], [], 1, [], [], []]
     if res["extractor"] is not None:
         ex = res["extractor"]
         ruledb = css.ruledb
@@ -764,11 +820,12 @@ def impl(case):
             spec = res["spec"]
             out["spec_root_ok"] = spec.root == css.start_class
         lab = {}
-        spec_in, spec_out, info = _spec_observation(css.start_class, rules, lab)
+        owed = case["kind"] == "word" or case["ruledb"].startswith("forest")
+        spec_in, spec_out, info = _spec_observation(css.start_class, rules, lab, owed)
         out["spec_in"] = spec_in
         out["spec_info"] = info
         # the same rules in reverse order: the result may not depend on the order
-        rev_in, rev_out, rev_info = _spec_observation(css.start_class, list(reversed(rules)), lab)
+        rev_in, rev_out, rev_info = _spec_observation(css.start_class, list(reversed(rules)), lab, owed)
         out["rev_in"] = rev_in
         out["rev_info"] = rev_info
         out["rev_same"] = (rev_out[0], _untagged(rev_out[1]), rev_out[2]) == (spec_out[0], _untagged(spec_out[1]), spec_out[2])
@@ -781,7 +838,15 @@ def impl(case):
     fr_in, fr_out, fr_info = _findrule_observation(case, res)
     out["fr_in"] = fr_in
     out["fr_info"] = fr_info
-    out["out"] = [ext_out, pumps_out, fr_out, spec_out, rev_out, cut_out]
+    # the table hypotheses of C02_search_find_rule_total decided in Python (predicates of c04.py) - compared by the
+    # core with what the extracted decider prints for the same table (run_c02 output field 6)
+    hyp_out = []
+    if fr_in and case["kind"] == "table":
+        from harness.props import hyps
+
+        hyp_out = hyps.bits(case["universe"], [], fr_in[9])
+    out["hyp"] = hyp_out
+    out["out"] = [ext_out, pumps_out, fr_out, spec_out, rev_out, cut_out, hyp_out]
     out["nrules"] = len(res["rules"]) if res["rules"] is not None else 0
     return out
 
@@ -819,18 +884,23 @@ def _canon_spec(sp):
     # the finished rules_dict must BE the dictionary _group_equiv_in_path left (_set_subrules added nothing) -
     # then the key lists are literally the R1 d1 / R0 d0 d1 of C02_grouping_preserves_productivity
     # (Spec/GroupingProdObj.v object_keys_pump_iff); the implementation side always says 1
+    # Fields 9..11 (added later): the productivity verdicts of the proved table-method model on R1 / R0 - for the
+    # root, and per class with a key (compared as sorted lists)
     st = _coarse(sp[0])
     same_ok = 0 if (st == 0 and sp[4] and not sp[8]) else 1
-    return [st, sorted(sp[1]), sorted(sp[2]), sorted(sp[3]), sp[4], sp[5], sorted(sp[6]), sorted(sp[7]), same_ok]
+    sp = list(sp) + [[], [], []][: max(0, 12 - len(sp))]
+    return [st, sorted(sp[1]), sorted(sp[2]), sorted(sp[3]), sp[4], sp[5], sorted(sp[6]), sorted(sp[7]), same_ok,
+            sp[9], sorted(sp[10]), sorted(sp[11])]
 
 
 def canon_model(mo):
-    ext, pumps, fr, sp, rev, cut = mo
+    ext, pumps, fr, sp, rev, cut = mo[:6]
+    hyp = mo[6] if len(mo) > 6 else []
     if ext[0] == 0:
         ext = [0, sorted(ext[1]), ext[2], ext[3]]
     # rules(): the three asserts as one AssertionError
     fr = [5 if fr[0] in (5, 6, 7) else fr[0], fr[1], fr[2]]
-    return [ext, pumps, fr, _canon_spec(sp), _canon_spec(rev), _canon_spec(cut)]
+    return [ext, pumps, fr, _canon_spec(sp), _canon_spec(rev), _canon_spec(cut), hyp]
 
 
 def oracle(case, res):
@@ -904,6 +974,19 @@ def oracle(case, res):
         lazy = [p for p in ci["problems"] if p.startswith("lazily added")]
         if lazy:
             return "constructor on a rule set with one rule left out: %s" % lazy[0]
+    hb = res.get("hyp")
+    if hb:
+        # harness/universes/table.py builds every universe so that symmetries preserve emptiness and have one child,
+        # factories hide plain strategies only, two-way entries are reversible, and every table strategy can be an
+        # equivalence: a false verdict on one of THESE is a defect of the generator / tabulation (the theorem would
+        # silently stop covering the stream), not a case the theorem merely does not cover.  pe_contract is NOT among
+        # them (the generator breaks it on purpose in a share of the universes): tag only.
+        from harness.props import hyps
+
+        owed = [n for n in hyps.missing(hb, "find_rule") if n != "pe_contract"]
+        if owed:
+            return ("harness: table universe violates %s, which harness/universes/table.py establishes by construction "
+                    "(hypothesis of C02_search_find_rule_total)" % ", ".join(owed))
     fi = res.get("fr_info")
     if fi and fi["err"] and not (fi["err"] == 2 and case["ruledb"] == "forget" and case["kind"] == "table"):
         # RuntimeError of RecomputingDict on table universes: known finding C14 forget-foreign-parent-outside-key
@@ -967,6 +1050,18 @@ def _object_productivity(case, info, which):
     if which != "cut_info" and (word or case["ruledb"].startswith("forest")):
         for p in sorted(parents - pc):
             return "class %d of the specification object does not pump on its declared forest keys (%s)" % (p, which)
+        # the independent verdict (naive least fixed point) next to the one the proved table-method model prints
+        # (fields 9..11, required to be 1 on this case): root and every class, on R1 and - under the premises of the
+        # grouping theorem - on R0
+        if "lfp_root" in info:
+            if not info["lfp_root"][0]:
+                return "the root of the specification object does not pump w.r.t. R1 (naive least fixed point, %s)" % which
+            if info.get("wf") and info.get("shifts_ok"):
+                if not info["lfp_root"][1]:
+                    return "the root does not pump w.r.t. the ungrouped keys R0 (naive least fixed point, %s)" % which
+                for c, b in info["lfp_R0"]:
+                    if not b:
+                        return "class %d does not pump w.r.t. the ungrouped keys R0 (naive least fixed point, %s)" % (c, which)
     return None
 
 
@@ -1018,7 +1113,47 @@ def extra_checks(ctx):
                 n_word_path += bool(sums)
         n_cases += hit
     ok = n_inst > 0 or len(ctx.impl_res) < 500
+    n_owed = n_owed_r0 = 0
+    for res, _why, _nt in ctx.impl_res:
+        for which in ("spec_info", "rev_info"):
+            info = res.get(which)
+            if info and info.get("ctor") == "ok" and info.get("owed"):
+                n_owed += 1
+                n_owed_r0 += bool(info.get("wf") and info.get("shifts_ok"))
+    verdict_line = (
+        "proved productivity verdict (C02_object_root_pumps_decided / C02_object_root_pumps) REQUIRED to be 1 - root "
+        "and every class, on R1 of the finished object - on %d constructor runs of the retained cases; on R0 too on "
+        "%d of them" % (n_owed, n_owed_r0), n_owed > 0 or len(ctx.impl_res) < 500,
+        "the bits are computed by the extracted table-method model (Forest/Model.v run with the proved fuel) inside "
+        "run_spec; the implementation side of the comparison states the requirement (all 1) where a productive rule "
+        "set is owed (word universes, forest databases) and the Python naive_lfp verdict elsewhere; the oracle "
+        "independently requires naive_lfp to agree")
+    # coverage of the composed theorem C02_search_find_rule_total: table-universe searches with the default RuleDB
+    # (the theorem is about the dict stores) whose rules() was compared with the model; covered = the decider's verdict
+    from harness.props import hyps
+
+    flags, why_not, n_forget = [], {}, 0
+    for case, (res, _why, _nt) in zip(ctx.cases, ctx.impl_res):
+        hb = res.get("hyp")
+        if not hb:
+            continue
+        if case.get("ruledb") != "base":
+            n_forget += 1
+            continue
+        flags.append(bool(hb[1]))
+        for m in hyps.missing(hb, "find_rule")[:1]:
+            why_not[m] = why_not.get(m, 0) + 1
+    cov = hyps.coverage_check(
+        "C02_search_find_rule_total", flags, MIN_COVERED,
+        "table-universe RuleDB searches whose rules() is compared",
+        "not covered because of: %s; %d further table-universe searches use RuleDBForgetStrategy (RecomputingDict "
+        "lookups: outside this theorem, see C14); verdict = find_rule_hyps_b of the extracted run_c02, equal to the "
+        "Python predicates on every case (part of the compared output); packets_in is not evaluated here (C02 records "
+        "no packets; it is a theorem for the queue model, Searcher/QueuePack.v search_in_pack, and evaluated on real "
+        "packets by C04/C14/C17); word universes: not evaluated" % (why_not or "-", n_forget))
     return [
+        verdict_line,
+        cov,
         ("C02_grouping_preserves_productivity / C02_object_keys_pump_iff instantiated on %d real constructor runs "
          "(%d cases)" % (n_inst, n_cases), ok,
          "premises wf_input and one-shift-per-child decided by the model (wf_inputb, shifts_okb) AND independently in "
@@ -1056,6 +1191,14 @@ def classify(case, res):
         tags.append("table_extraction_error:" + res["extraction_error"].split(":")[0])
     if res.get("extract") and res["extract"][5]:
         tags.append("uses_equivalence_paths")
+    hb = res.get("hyp")
+    if hb:
+        from harness.props import hyps
+
+        tags.append(hyps.verdict_tag("C02_search_find_rule_total", hb, "find_rule",
+                                     also=[("RuleDBForgetStrategy", case["ruledb"] == "base")]))
+    elif res.get("fr_in"):
+        tags.append("thm:C02_search_find_rule_total:not_evaluated(word universe)")
     fi = res.get("fr_info")
     if fi:
         tags.append("find_rule:" + ("ok" if not fi["err"] else "error%d" % fi["err"]))
@@ -1107,10 +1250,12 @@ TECHNIQUE = (
     "keys of the grouped dictionary - a path counted with the sum of its members' shifts - pump the same classes as "
     "those of the ungrouped rules, instantiated per real rule set through decided premises; meaning of the "
     "productivity verdict via C03) + replayed correspondence of extractor, rules() and constructor (with the rules' "
-    "declared shifts and the object's forest keys) with the real code + per-instance oracle"
+    "declared shifts and the object's forest keys) with the real code + per-instance oracle; the table hypotheses of "
+    "the composed theorem C02_search_find_rule_total are decided per table-universe case by an extracted decider "
+    "(verdict compared with the harness's predicates on every such case; covered fraction reported and enforced)"
 )
 LEVEL_TEXT = (
-    "27 theorems (Props/C02.v, axiom-free). Extractor: C02_closed (dictionary contains the start label, is closed, "
+    "37 theorems (Props/C02.v, axiom-free). Extractor: C02_closed (dictionary contains the start label, is closed, "
     "consists of stored rules and steps of find_path answers, for every iteration order and every find_path whose "
     "answers are non-empty lists from the first label to the second - the head/last part of C06_path; that a step is "
     "a RECORDED edge needs C06_path's other half, which is not imported). _find_rule/rules() over a strategy table and ANY two stores: C02_rules_from_table(_all) - every rule "
@@ -1126,7 +1271,13 @@ LEVEL_TEXT = (
     "equivalence store can be equivalences' are discharged; what remains are hypotheses on the strategy TABLE: the two "
     "strategy contracts of Searcher/Contracts.v, unary symmetry rules, no factory item naming a verification strategy, "
     "two-way entries reversible and of strategies that can be equivalences) - for table universes; a word search is "
-    "such a run only modulo the trusted Tabulator; C02_find_rule_outcomes - every exception "
+    "such a run only modulo the trusted Tabulator; C02_search_find_rule_total_decided - the same theorem with all these "
+    "table hypotheses replaced by find_rule_hyps_b T pack cap = true (Searcher/Deciders.v), the boolean the extracted "
+    "run_c02 evaluates on the table of EVERY table-universe case whose rules() is compared (output field 6, compared "
+    "with the plugin's Python verdict by the core's diff): the composed theorem covers exactly the cases where it is "
+    "true - 93-96% of the table-universe RuleDB searches compared (seeds 0-2; tags thm:C02_search_find_rule_total:* and "
+    "the extra check covered_by_theorem, which fails below 85%), none of the RuleDBForgetStrategy or word-universe "
+    "searches; C02_find_rule_outcomes - every exception "
     "characterised; the foreign-parent limitation of RuleDBForgetStrategy and the finding fixed by /repo 398db71 (the "
     "code before the fix: model run with convert=false) as machine-checked counterexamples, the repair - what the code "
     "does now - as C02_repair_converts (+ Spec/FindRuleRepair.v: with it every equivalence rule handed out is "
@@ -1146,15 +1297,27 @@ LEVEL_TEXT = (
     "check compares R1 with the forest keys the real object declares and counts the instances in extra_checks: "
     "about 18700 constructor runs (main and reversed rule order of about 9400 searches) per quick run, about 6000 of "
     "them with a path rule and about 2100 with a path whose members' shifts sum to non-zero - the latter in table "
-    "universes only, whose shifts are artificial), C02_productive_decided (meaning of the per-specification verdict). Which model runs where: the "
+    "universes only, whose shifts are artificial), C02_productive_decided (meaning of the run_pumps bits). THE VERDICT ON THE "
+    "OBJECT: C02_object_root_pumps_decided / C02_pumps_decided / C02_object_all_classes_pump_decided (pumpsb ks c = true "
+    "<-> pumps ks c for ANY key list, by C03_total_sound_complete; all_pumpb), C02_run_spec_prints_the_verdicts (fields "
+    "6, 7, 9, 10, 11 of the extracted run_spec are R1, R0 and pumpsb on them), C02_object_root_pumps (the four bits + "
+    "one positive verdict => pumps (R1 object) root AND pumps (R0 ungrouped) root: the productivity hypothesis of "
+    "C01_spec_correct for the keys the object declares), C02_object_verdicts_agree, C02_object_all_classes_pump. TOWARDS "
+    "C01: C02_descriptors_declare_R1 / _declare_only_R1 (Spec/GroupingDesc.v descs_of : Grouping.dict -> list cdesc; the "
+    "forest keys declared by the descriptors of the classes of the object are exactly R1) and C02_object_counts_partial "
+    "(bits + verdict + C01's per-descriptor contracts => eval of that descriptor list gives the true counts of the root; "
+    "PARTIAL: that c01.py describe() builds this list from the real object is trusted Python with another class "
+    "numbering and shift 0 for a path, nothing feeds run_c01 with it here, the contracts stay hypotheses). Which model runs where: the "
     "extractor and _find_rule models run only on searches with a pruning database (base / forget) that announce a "
     "specification; forest searches exercise the table-method model (run_pumps) and the constructor model only; the "
     "constructor model runs three times on every search that hands out rules."
 )
 LEVEL_NOTE = (
     "Productivity of pruning-database specifications and genuineness of the rule objects of word universes are instance "
-    "checks (DESIGN.md C02); the forest database's guarantees are C11's theorems (its _find_rule is not re-modelled "
-    "here). C02_enforce_labels_partial: no KeyError and distinct labels, termination within the fuel unproved. The "
+    "checks (DESIGN.md C02) - productivity now decided by the proved table-method model on the object's own keys R1 and "
+    "on R0 (a model bit 0 where productivity is owed shows up as a model/implementation mismatch, the Python naive_lfp "
+    "failing as an oracle failure); the forest database's guarantees are C11's theorems (C11_all_classes_pump is the "
+    "statement about every class; its _find_rule is not re-modelled here). C02_enforce_labels_partial: no KeyError and distinct labels, termination within the fuel unproved. The "
     "constructor model covers group_equiv=True and False; paths of paths are not modelled. The finding "
     "oneway-equivalence-with-empty-sibling is FIXED in /repo (398db71, known_findings.json kind `fixed`): the harness "
     "detects the conversion in the source of rules() (or VERIF_C02_CONVERT=1) and compares the convert=true branch of "
@@ -1163,6 +1326,10 @@ LEVEL_NOTE = (
     "compared per instance, on word universes (all 0); no disagreement found, no finding (shifts() of a derived "
     "form is read only through forest_key - RuleDBForest.add on the rules expand_comb_class seeds, "
     "ForestRuleExtractor.rules(cache) - never by get_terms; EquivalencePathRule.shifts() by nothing in the library). "
+    "C02_search_find_rule_total does NOT cover every compared case: its table hypotheses are evaluated per case by the "
+    "extracted decider (find_rule_hyps_b) and hold on 93-96% of the table-universe RuleDB searches (about a quarter of "
+    "the table universes the generator leaves untouched break pe_contract); where the verdict is false, and on every "
+    "RuleDBForgetStrategy and word-universe search, only the model/implementation comparison and the oracle speak. "
     "Trusted: Coq kernel, "
     "extraction, harness, recorded find_path/set-order replay."
 )
